@@ -428,6 +428,12 @@ def extract():
     # the 32 Note members as lane tuples, and the HOPOState values (checked by cfg_ok items)
     lines.append("Definition src_note_values : list (list Z) := %s." % coq_list(coq_list(coq_Z(x) for x in v) for v in note_values))
     lines.append("Definition src_hopo_values : list (str * Z) := %s." % coq_list("(%s, %s)" % (coq_str(k), coq_Z(v)) for k, v in hopo_values.items()))
+    # C17: static purity scan (process-wide state and who writes it)
+    import purity
+    pit = purity.scan(REPO)
+    def cstr(x):
+        return '"%s"%%string' % "".join(ch if 32 <= ord(ch) < 127 and ch != '"' else "?" for ch in x)
+    lines.append("Definition src_purity : list (String.string * bool) := %s." % coq_list("(%s, %s)" % (cstr(d), coq_bool(ok)) for d, ok in pit))
     text = "\n".join(lines) + "\n"
     info = {
         "fingerprints": source_fingerprints(),
